@@ -16,7 +16,8 @@ use {
     std::net::SocketAddr,
 };
 
-const DEFAULT_PACKET_SIZE: usize = 1024;
+/// Large enough for any UDP datagram: a smaller receive buffer silently truncates longer replies.
+const DEFAULT_PACKET_SIZE: usize = 65_535;
 
 /// A trait defining the basic functionalities of a network socket.
 pub trait Socket {
